@@ -1,6 +1,7 @@
 package main
 
 import (
+	stdslog "log/slog"
 	"context"
 	"errors"
 	"fmt"
@@ -36,6 +37,11 @@ type c07lazyAttr struct {
 func (a c07lazyAttr) Key() string  { return a.key }
 func (a c07lazyAttr) Value() any   { return a.f() }
 func (a c07lazyAttr) SetValue(any) {}
+
+// ctxKeyEmpty is a context key whose String() is empty.
+type ctxKeyEmpty struct{}
+
+func (ctxKeyEmpty) String() string { return "" }
 
 type srcKV struct {
 	key string
@@ -322,6 +328,16 @@ func c07main(c *Ctx) {
 				key = ctxKeyS(name)
 				name = "named." + name
 			}
+			if f == FJSON && r.P(8) {
+				// a key whose printed name is EMPTY (the string "", a Stringer that says ""): a name like any other - JSON
+				// has a spelling for it
+				name = ""
+				key = ""
+				if r.Bool() {
+					key = ctxKeyEmpty{}
+				}
+				c.R.Add("context_keys_whose_printed_name_is_empty", 1)
+			}
 			lg.SetContextKeys(key)
 			regs = append(regs, regKey{key, name})
 			keyDesc = append(keyDesc, fmt.Sprintf("%T(%v)", key, key))
@@ -472,6 +488,10 @@ func c07main(c *Ctx) {
 			defer slog.SetDefault(savedDef)
 			c.R.Add("records_through_a_package_level_function_with_the_logger_as_default", 1)
 		}
+		viaLog := !viaPkg && !nilCtx && idx%6 == 1
+		if viaLog {
+			c.R.Add("records_through_the_verb_that_takes_a_log_slog_level", 1)
+		}
 		evs := capture(log, func() {
 			switch {
 			case viaPkg && nilCtx:
@@ -480,6 +500,8 @@ func c07main(c *Ctx) {
 				slog.InfoContext(ctx, "probe", args...)
 			case nilCtx:
 				lg.InfoContext(nil, "probe", args...) //nolint:staticcheck // nil context is in the property's domain
+			case viaLog:
+				lg.Log(ctx, stdslog.LevelInfo, "probe", args...) // the verb that takes a log/slog level: the same sources, the same rule
 			default:
 				lg.InfoContext(ctx, "probe", args...)
 			}
